@@ -58,18 +58,49 @@ func (p *flatParser) Pull() (node.Node, bool, error) {
 	case i >= p.n-p.depth:
 		return nil, true, nil
 	}
-	switch (i - p.depth) % 3 {
+	// a cycle of every event kind: element with a namespace and an attribute,
+	// its end, text, comment, processing instruction
+	k := (i - p.depth) % 7
+	if base := i - k; k <= 3 && base+3 >= p.n-p.depth {
+		return fpText{}, false, nil // no room for the whole element before the closing run
+	}
+	switch k {
 	case 0:
-		if i+1 >= p.n-p.depth {
-			return fpText{}, false, nil // no room for the end event
-		}
 		p.elems++
 		return fpElem{}, false, nil
 	case 1:
+		return fpNS{}, false, nil
+	case 2:
+		return fpAttr{}, false, nil
+	case 3:
 		return nil, true, nil
+	case 4:
+		return fpText{}, false, nil
+	case 5:
+		return fpComment{}, false, nil
 	}
-	return fpText{}, false, nil
+	return fpPI{}, false, nil
 }
+
+type fpNS struct{}
+
+func (fpNS) Prefix() string         { return "p" }
+func (fpNS) NamespaceValue() string { return "urn:x" }
+
+type fpAttr struct{}
+
+func (fpAttr) Space() string          { return "" }
+func (fpAttr) Local() string          { return "k" }
+func (fpAttr) AttributeValue() string { return "v" }
+
+type fpComment struct{}
+
+func (fpComment) CommentValue() string { return "c" }
+
+type fpPI struct{}
+
+func (fpPI) Target() string        { return "t" }
+func (fpPI) ProcInstValue() string { return "d" }
 
 func childMain() int {
 	switch os.Getenv("VERIF_CHILD") {
